@@ -122,6 +122,34 @@ type Op struct {
 	Site string
 }
 
+// BlockedClass is the canonical identity of a deadlock: which kinds of operations in which functions the threads
+// are blocked in (function names, not line numbers; idle loops waiting in select, joins and sleeps are left out).
+func (s *Sched) BlockedClass() string {
+	set := map[string]bool{}
+	for _, th := range s.threads {
+		if th.done || th.pending == nil {
+			continue
+		}
+		switch th.pending.Kind {
+		case KLock, KRLock, KSend, KRecv, KWgWait, KAnnounce:
+			set[kindName(th.pending.Kind)+"@"+siteFunc(th.pending.Site)] = true
+		}
+	}
+	var parts []string
+	for k := range set {
+		parts = append(parts, k)
+	}
+	sort.Strings(parts)
+	return strings.Join(parts, ",")
+}
+
+func siteFunc(site string) string {
+	if i := strings.Index(site, " "); i >= 0 {
+		return site[i+1:]
+	}
+	return site
+}
+
 // Thread is a managed goroutine.
 type Thread struct {
 	ID      int
@@ -199,6 +227,7 @@ type Sched struct {
 	poison   bool
 	Out      Outcome
 	Detail   string
+	Class    string // canonical class of a deadlock / livelock (for fingerprints)
 	hash     uint64
 	cache    *Cache
 	wg       sync.WaitGroup // real: all managed goroutines
@@ -574,6 +603,7 @@ func (s *Sched) pick(t *Thread, exiting bool) (*Thread, int, *Env) {
 			s.yieldRun++
 			if s.yieldRun > 200 {
 				s.Out = Livelock
+				s.Class = s.BlockedClass()
 				s.Detail = "only yielding threads enabled for 200 consecutive decisions: " + s.describeBlocked()
 				s.abort()
 				return nil, 0, nil
@@ -611,6 +641,7 @@ func (s *Sched) pick(t *Thread, exiting bool) (*Thread, int, *Env) {
 		if bestT >= 0 {
 			if s.maxNow > 0 && bestT > s.maxNow {
 				s.Out = Horizon
+				s.Class = s.BlockedClass()
 				s.Detail = "virtual time limit reached; threads: " + s.describeBlocked()
 				s.abort()
 				return nil, 0, nil
@@ -637,6 +668,7 @@ func (s *Sched) pick(t *Thread, exiting bool) (*Thread, int, *Env) {
 	}
 	if len(alts) == 0 {
 		s.Out = Deadlock
+		s.Class = s.BlockedClass()
 		s.Detail = "no enabled thread: " + s.describeBlocked()
 		s.abort()
 		return nil, 0, nil
@@ -981,7 +1013,7 @@ func kindName(k Kind) string {
 // Site returns "file:line" of the first caller outside the shim packages.
 func Site() string {
 	for skip := 2; skip < 12; skip++ {
-		_, file, line, ok := runtime.Caller(skip)
+		pc, file, line, ok := runtime.Caller(skip)
 		if !ok {
 			return ""
 		}
@@ -991,7 +1023,14 @@ func Site() string {
 		if i := strings.LastIndex(file, "/pkg/"); i >= 0 {
 			file = file[i+5:]
 		}
-		return fmt.Sprintf("%s:%d", file, line)
+		fn := ""
+		if f := runtime.FuncForPC(pc); f != nil {
+			fn = f.Name()
+			if i := strings.LastIndex(fn, "/"); i >= 0 {
+				fn = fn[i+1:]
+			}
+		}
+		return fmt.Sprintf("%s:%d %s", file, line, fn)
 	}
 	return ""
 }
